@@ -308,6 +308,21 @@ register_b09(
                  "discipline is checked there"],
 )
 
+import suite_forms  # noqa: E402
+
+register_b09(
+    "C04", ["CocoVerif.Props.C04"], OB.c04, lambda c, i, w: None,
+    "forms: every row of Spec.Device.forms (53 device statement / function forms, each presence/absence pattern of optional "
+    "operands its own row) instantiated with sentinel operands and with operand expressions (sums, parentheses, signs, NOT, "
+    "literals, hex, array elements, built-in calls, string expressions), converted by the real convert(); the RUN call found in "
+    "the output must be the spec's procedure with every operand in the position of the parameter the spec names and the "
+    "documented default elsewhere; b09: on all suite programs the buffer prologue must be present iff HBUFF is used and the two "
+    "speed pokes must become play.octo assignments; distinct = distinct request",
+    extra_suites=[{"name": "forms", "relevant": lambda c: True, "oracle": suite_forms.oracle, "classify": suite_forms.classify}],
+    lean_extra=["CocoVerif.Spec.Device"],
+    assumptions=["operand values: the oracle compares the operand *texts* the converter writes for the same expression in an assignment"],
+)
+
 import suite_names  # noqa: E402
 
 PROPS["C09"] = {
@@ -409,6 +424,17 @@ def replay_witness(f):
         case = {"fmt": parts[1], "kind": w.get("kind", "valid"), "req": w["request"], "data": unhex(parts[-1])}
         case.update(w.get("case", {}))
         return OI.ORACLES[w.get("oracle", f["property"])](case, impl)
+    if isinstance(w, dict) and w.get("type") == "form":
+        res = suite_forms.run("quick")
+        for c, i in zip(res["cases"], res["impl"]):
+            if c["text"] == w["text"]:
+                return suite_forms.oracle(c, i)
+        # not among the quick cases: build it from the thorough list
+        res = suite_forms.run("thorough")
+        for c, i in zip(res["cases"], res["impl"]):
+            if c["text"] == w["text"]:
+                return suite_forms.oracle(c, i)
+        return None
     if isinstance(w, dict) and w.get("type") == "det":
         import os
         import subprocess
